@@ -17,7 +17,7 @@ from verifkit.ref import loss as RL
 ID = "C18"
 RULE = ("catalogue models (12) and generated bounded models, generating parameters perturbed +-25%, data = exact trajectory (Square, Normal, Gamma: truth is the "
         "exact minimiser) or Poisson counts (box / no-worse clauses only); starts: the truth, random interior points; boxes containing the truth and boxes "
-        "excluding it (active bounds). Non-trivial: a fit whose start has reference cost > 100 x the final cost, or one that ends on an active bound; "
+        "excluding it (active bounds); lane zero-bound: one generating parameter is exactly 0, data noisy, its lower bound is 0 / 0.0 given in a python list. Non-trivial: a fit whose start has reference cost > 100 x the final cost, or one that ends on an active bound; "
         "distinct by hash of the case")
 ASSUMPTIONS = ["cost comparison uses the independent reference cost (C06 oracle) with relative slack 1e-9 plus the trajectory tolerance",
                "truth clause: ||theta_hat - theta*|| <= 1e-6 (1 + ||theta*||), only for losses whose exact minimiser is the generating parameter vector"]
@@ -28,24 +28,43 @@ CASE_TIMEOUT = 600
 def plan(tier):
     q = tier == "quick"
     return [{"lane": "catalogue", "n": 24 if q else 800, "timeout": 1200 if q else 3400, "min_per_shard": 1, "max_shards": 32},
-            {"lane": "main", "n": 24 if q else 800, "timeout": 1200 if q else 3400, "min_per_shard": 1, "max_shards": 32}]
+            {"lane": "main", "n": 24 if q else 800, "timeout": 1200 if q else 3400, "min_per_shard": 1, "max_shards": 32},
+            # a generating parameter that is exactly 0, noisy data, lower bound exactly 0 (float or int): the bound is active whenever the
+            # unconstrained optimum is negative
+            {"lane": "zero-bound", "n": 24 if q else 600, "timeout": 1200 if q else 3400, "min_per_shard": 1, "max_shards": 32}]
 
 
 def floors(tier):
     return {"nontrivial": 12, "counter:fits": 100, "counter:truth_clause_checks": 20, "counter:box_checks": 100, "counter:no_worse_checks": 80,
-            "counter:active_bound_fits": 15, "class:Square": 8, "class:Normal": 5, "class:Gamma": 3}
+            "counter:active_bound_fits": 15, "class:Square": 8, "class:Normal": 5, "class:Gamma": 3,
+            "counter:zero_bound_fits": 20, "counter:zero_bound_active": 5}
 
 
 def run_case(rng, idx, tier, lane, ctx):
-    counters = {"fits": 0, "truth_clause_checks": 0, "box_checks": 0, "no_worse_checks": 0, "active_bound_fits": 0, "fit_raised": 0}
+    counters = {"fits": 0, "truth_clause_checks": 0, "box_checks": 0, "no_worse_checks": 0, "active_bound_fits": 0, "fit_raised": 0,
+                "zero_bound_fits": 0, "zero_bound_active": 0}
     wit = []
-    c = LC.build_model(rng, lane, idx, max_states=3, max_params=3)
+    zero = lane == "zero-bound"
+    c = LC.build_model(rng, "catalogue" if (zero and rng.random() < 0.4) else ("main" if zero else lane), idx if not zero else rng.randrange(10 ** 6),
+                       max_states=3, max_params=3, time_dep=not zero)
     if c.nP == 0:
         return {"status": "inconclusive", "reason": "parameter-free", "counters": counters}
+    kz = None
+    if zero:
+        cand = [i for i, p_ in enumerate(c.params) if p_ != "N"]
+        if len(cand) < 2:
+            return {"status": "inconclusive", "reason": "too-few-parameters-for-a-zero-one", "counters": counters}
+        kz = rng.choice(cand)
+        c.theta = list(c.theta)
+        c.theta[kz] = 0.0
+        c.m.parameters = list(c.theta)
     rs = LC.ref_solution(c)
     if not rs.ok:
         return {"status": "inconclusive", "reason": "reference:" + rs.reason, "counters": counters}
-    LC.choose_observation(rng, c, rs, kinds=["Square", "Square", "Normal", "Gamma", "Poisson"], allow_weights=False, exact_data_prob=1.0)
+    if zero:
+        LC.choose_observation(rng, c, rs, kinds=["Square", "Normal"], allow_weights=False, exact_data_prob=0.0)
+    else:
+        LC.choose_observation(rng, c, rs, kinds=["Square", "Square", "Normal", "Gamma", "Poisson"], allow_weights=False, exact_data_prob=1.0)
     c.target_param = None
     c.target_state = None
     cls = list(c.classes) + [c.kind]
@@ -65,6 +84,9 @@ def run_case(rng, idx, tier, lane, ctx):
     th = np.array(c.theta, dtype=float)
     lb = th * 0.3
     ub = th * 3.0
+    if zero:
+        ub[kz] = float(np.max(th)) if np.max(th) > 0 else 1.0
+        cls.append("zero-bound")
 
     def refcost(theta):
         r = LC.ref_solution(c, theta=list(theta), crosscheck=False, amplification=False)
@@ -77,8 +99,15 @@ def run_case(rng, idx, tier, lane, ctx):
         return LC.ref_cost(c, yhat), g * tol_x
 
     nontriv = False
-    runs = [("truth", th.copy(), lb, ub)] if c.exact_data else []
-    for rep in range(3):
+    runs = [("truth", th.copy(), lb, ub)] if (c.exact_data and not zero) else []
+    if zero:
+        for rep in range(3):
+            start = np.array([rng.uniform(l + 0.1 * (u - l), u - 0.1 * (u - l)) for l, u in zip(lb, ub)])
+            # the bounds as a user would write them: python lists, the zero bound as float 0.0 or as int 0
+            lo_arg = [float(v) for v in lb]
+            lo_arg[kz] = 0 if rng.random() < 0.5 else 0.0
+            runs.append(("zero-bound", start, lo_arg, [float(v) for v in ub]))
+    for rep in range(0 if zero else 3):
         if rep < 2:
             box = (lb, ub)
         else:
@@ -91,13 +120,19 @@ def run_case(rng, idx, tier, lane, ctx):
     for label, start, lo, hi in runs:
         try:
             with contextlib.redirect_stdout(io.StringIO()), np.errstate(all="ignore"):
-                xh = np.asarray(obj.fit(list(start), lb=lo, ub=hi), dtype=float)
+                xh = np.asarray(obj.fit(list(start), lb=lo if label != "zero-bound" else list(lo), ub=hi if label != "zero-bound" else list(hi)), dtype=float)
         except Exception as e:
             counters["fit_raised"] += 1
             bad("fit raised", start=label, error=short_exc(e), tb=tb_tail(e))
             continue
         counters["fits"] += 1
         counters["box_checks"] += 1
+        lo, hi = np.asarray(lo, dtype=float), np.asarray(hi, dtype=float)
+        if label == "zero-bound":
+            counters["zero_bound_fits"] += 1
+            if xh.shape == th.shape and abs(xh[kz]) <= 1e-9:
+                counters["zero_bound_active"] += 1
+                nontriv = True
         if xh.shape != th.shape or np.any(xh < lo - 1e-12) or np.any(xh > hi + 1e-12):
             bad("fit returned a point outside the box", start=label, returned=xh.tolist(), lb=lo.tolist(), ub=hi.tolist())
             continue
